@@ -58,6 +58,12 @@ def abstract_value(ip, cr, st, tix, name, depth=0):
             T.declare_var(name, ONE)
             return vbytes(T.bvar(name))
         return vint(T.ivar(int(t["name"][1:]), name))
+    if k == "slice":
+        esz = ip.sizeof(cr, t["inner"])
+        cnt = Lin.sym(name + ".len")
+        st.F.add_ge(cnt)
+        T.declare_var(name, cnt * esz)
+        return vbytes(T.bvar(name))
     if ip.is_bytes_ty(cr, tix):
         ln = ip.sizeof(cr, tix)
         T.declare_var(name, ln)
@@ -150,7 +156,7 @@ def run_method(facts, cr, body, arg_builder, ctx=None, F=None, trace=False):
     return ip, summarise_paths(ip, res, cells)
 
 
-def backend_args(alias):
+def backend_args(alias, in_name="in", out_name="out_old"):
     """arg builder for fn(&mut self, block: InOut<..>) / fn(&mut self, block: &mut Block).
     alias: True = in place (input and output are the same buffer)."""
     def build(ip, st):
@@ -169,28 +175,28 @@ def backend_args(alias):
             if t2["k"] == "adt" and t2["adt"].endswith("InOut"):
                 et = type_args(t2)[0]
                 ln = ip.sizeof(cr, et)
-                T.declare_var("in", ln)
-                T.declare_var("out_old", ln)
-                st.heap[("A", "in")] = vbytes(T.bvar("in"))
+                T.declare_var(in_name, ln)
+                T.declare_var(out_name, ln)
+                st.heap[("A", "in")] = vbytes(T.bvar(in_name))
                 if alias:
                     io = ("inout", Target(("A", "in")), Target(("A", "in")))
                     cells["out"] = ("A", "in")
                 else:
-                    st.heap[("A", "out")] = vbytes(T.bvar("out_old"))
+                    st.heap[("A", "out")] = vbytes(T.bvar(out_name))
                     io = ("inout", Target(("A", "in")), Target(("A", "out")))
                     cells["out"] = ("A", "out")
                     cells["in"] = ("A", "in")
                 args.append(io)
             else:
-                v = abstract_value(ip, cr, st, locs[2]["ty"], "out_old")
+                v = abstract_value(ip, cr, st, locs[2]["ty"], out_name)
                 args.append(v)
-                cells["out"] = ("A", "out_old")
+                cells["out"] = ("A", out_name)
         return args, cells
     return build
 
 
-def run_backend_method(facts, cr, body, alias=False, ctx=None, F=None, trace=False):
-    b = backend_args(alias)
+def run_backend_method(facts, cr, body, alias=False, ctx=None, F=None, trace=False, in_name="in", out_name="out_old"):
+    b = backend_args(alias, in_name, out_name)
     b.body = body
     b.cr = cr
     return run_method(facts, cr, body, b, ctx, F, trace)
